@@ -322,7 +322,17 @@ func c11Type2(c *h.Ctx, n int) {
 		chal, nonce, salt := rnd(c, c.Rng.Intn(80)), rnd(c, 32), rnd(c, 48)
 		kid := iss.TokenKeyID()
 		b1, b2 := rsaBlind(c, key.N), rsaBlind(c, key.N)
-		switch i % 3 { // blinds at the edges of the range of units: 1, n - 1
+		switch i % 6 { // blinds at the edges of the range of units: 1, n - 1; and structured ones (multiples of 2^64, powers of two)
+		case 3:
+			b2 = make([]byte, 256)
+			b2[255-8] = 1 // 2^64
+		case 4:
+			b2 = make([]byte, 256)
+			b2[1] = 0x40 // 2^2038
+		case 5:
+			b2 = cat(rnd(c, 240), make([]byte, 16)) // odd-ish multiple of 2^128
+			b2[0] = 0
+			b2[239] |= 1
 		case 1:
 			b2 = make([]byte, 256)
 			b2[255] = 1
